@@ -381,3 +381,26 @@ PROPERTIES["C09"] = {
                      "nano::targets_iterator_t::loop", "nano::sum_reduce"]},
     ],
 }
+
+PROPERTIES["C10"] = {
+    "level": "other",
+    "level_text": "bounded symbolic verification: for every value of the symbolic gradients (and feature cells where stated) the score returned by stump / affine / dense-table fitting equals the RSS of the learner's own predictions and is <= the RSS of every hypothesis of its class (hypothesis parameters universally quantified: any threshold for stumps with group-mean outputs, normal equations + every other feature for affine, any per-label table for dense tables); predictions are additive, zero on missing values, constant per split() group, and scale() multiplies them",
+    "level_note": SRE_NOTE,
+    "technique": SRE_TECH,
+    "explanation": "C10: wlearner_t::fit/predict/split/scale/clone of stump, affine and dense-table learners through the real dataset + select_iterator stack with the RSS criterion.",
+    "assumptions": SRE_ASSUME + ["gradients boxed to [-8,8]; feature cells symbolic in [-8,8] (cx=0) or concrete (cx=1)", "one output (regression target)", "RSS criterion (make_score clamps at 1e3*epsilon; reference clamps identically)"],
+    "bounds": {"samples": "3..4", "features": "1..3 scalar / 1..2 categorical (3 classes)", "missing patterns": "0, 1", "sample subsets": "all / with repetition"},
+    "outside": ["hinge, dstep, kbest/ksplit tables, decision trees (depth > 1) and merging of learners: not covered", "16 threads", "more than 4 samples with fully symbolic data (nlsat returns unknown on the optimality inequalities)", "aic/aicc/bic criteria (log)"],
+    "units": [
+        {"engine": "sre", "harness": "C10_wlearner", "sources": ["C10_wlearner.cpp"],
+         "quick": ["wl=stump;f=rr;n=3", "wl=stump;f=rrr;n=3;miss=1", "wl=stump;f=rrr;n=4;cx=1;sub=1", "wl=affine;f=rr;n=3", "wl=affine;f=rrr;n=4;cx=1", "wl=affine;f=rrr;n=3;cx=1;miss=1",
+                   "wl=dense-table;f=sr;n=3", "wl=dense-table;f=ssr;n=4;miss=1", "wl=dense-table;f=smr;n=4;cx=1"],
+         "thorough": ["wl=stump;f=rr;n=3", "wl=stump;f=rr;n=4", "wl=stump;f=rrr;n=3;miss=1", "wl=stump;f=rrr;n=4;sub=1", "wl=stump;f=rrr;n=4;cx=1;sub=1", "wl=stump;f=rrrr;n=4;cx=1;miss=1",
+                      "wl=affine;f=rr;n=3", "wl=affine;f=rr;n=4", "wl=affine;f=rrr;n=4;cx=1", "wl=affine;f=rrr;n=3;cx=1;miss=1", "wl=affine;f=rrrr;n=4;cx=1;sub=1",
+                      "wl=dense-table;f=sr;n=3", "wl=dense-table;f=sr;n=4;sub=1", "wl=dense-table;f=ssr;n=4;miss=1", "wl=dense-table;f=smr;n=4;cx=1", "wl=dense-table;f=msr;n=4;miss=4"],
+         "budget": {"quick": {"deadline_s": 90, "max_paths": 20000}, "thorough": {"deadline_s": 900, "max_paths": 300000, "query_s": 30}},
+         "encoded": ["nano::wlearner_t::{fit, split}", "nano::stump_wlearner_t::{do_fit, do_predict, do_split}", "nano::affine_wlearner_t::{do_fit, do_predict}", "nano::dense_table_wlearner_t::do_fit",
+                     "nano::table_wlearner_t::{set, do_predict, do_split}", "nano::wlearner::accumulator_t", "nano::wlearner::make_score", "nano::single_feature_wlearner_t::scale", "nano::select_iterator_t::loop",
+                     "nano::learner_t::predict", "nano::min_reduce"]},
+    ],
+}
